@@ -1,0 +1,37 @@
+//go:build verif
+// +build verif
+
+package jet
+
+// Verification hooks (build tag "verif"). Add-only: nothing here is compiled into normal builds.
+
+// VerifToken is a lexer item as seen by the parser.
+type VerifToken struct {
+	Typ int
+	Pos int
+	Val string
+}
+
+// VerifLex runs the lexer state machine over input with the given delimiters (empty = default)
+// and returns every item it emits. A panic inside the lexer is recovered and returned.
+func VerifLex(input, leftDelim, rightDelim, leftComment, rightComment string) (toks []VerifToken, panicked interface{}) {
+	l := lex("verif", input, false)
+	l.setDelimiters(leftDelim, rightDelim)
+	l.setCommentDelimiters(leftComment, rightComment)
+	done := make(chan interface{}, 1)
+	go func() {
+		defer func() {
+			r := recover()
+			close(l.items)
+			done <- r
+		}()
+		for l.state = lexText; l.state != nil; {
+			l.state = l.state(l)
+		}
+	}()
+	for it := range l.items {
+		toks = append(toks, VerifToken{Typ: int(it.typ), Pos: int(it.pos), Val: it.val})
+	}
+	panicked = <-done
+	return
+}
